@@ -75,6 +75,7 @@ def run(chk, prog):
     chk.rule(RD, 'Both load_from_string functions compare the version against INK_VERSION_CURRENT and '
              'INK_VERSION_MINIMUM_COMPATIBLE.')
 
+    number_reader_refuses_only_non_numbers(chk, prog)
     RE_ = 'C14.same-depth-budget'
     chk.rule(RE_, 'The streaming loader refuses a document nested deeper than its own limit; the other loader has '
              'serde_json\'s limit of 128 levels, and the compiler promises stories up to that depth. Both count one per '
@@ -363,3 +364,42 @@ def identifier_keys_test_the_value_kind(chk, prog, tr):
                        'kind of the value: a container with a named child called "%s" (a knot of that name) fails to load, '
                        'while the serde decoder plays the story' % (k, k, k), f.loc(b))
     chk.floor(RK, 'identifier-like keys compared by the streaming decoder', n, 6)
+
+
+def number_reader_refuses_only_non_numbers(chk, prog):
+    from analysis.wbf import err_exits
+    RN = 'C14.number-reader-falls-through-to-the-float-parse'
+    chk.rule(RN, 'JsonTokenizer::read_number (streaming loader) produces an error of its own only after the text has been '
+             'handed to str::parse::<f32> and refused there: the float grammar contains every JSON number form (exponents '
+             'without a fraction such as 1e-6 or 1e+17, which the compiler and serde_json write for small and large '
+             'floats), so a refusal decided earlier - on the shape of the text, or because the i32 parse failed - refuses '
+             'documents the default loader (serde_json) reads.')
+    f = prog.fn('JsonTokenizer::read_number')
+    if not chk.anchor(RN, 'JsonTokenizer::read_number', f):
+        return
+    g = cfg(f)
+    fl = [bb for bb, t in f.calls() if callee_short(t) == 'str::parse' and ('f32' in t.get('dty', '') or 'f64' in t.get('dty', ''))]
+    il = [bb for bb, t in f.calls() if callee_short(t) == 'str::parse' and 'i32' in t.get('dty', '')]
+    if not chk.anchor(RN, 'str::parse::<f32> in read_number', fl):
+        return
+    own = [(b, d_) for b, d_, s_ in err_exits(prog, f) if s_ is None]
+    n = 0
+    for b, d_ in own:
+        n += 1
+        ok = any(g.dominates(p, b) for p in fl)
+        chk.decide(RN, chk.key(RN, 'own-error', '#%d' % n), ok, 'raised only after the float parse refused the text',
+                   'read_number refuses a number without having tried the float parse (error exit not dominated by '
+                   'str::parse::<f32>): number forms the default loader accepts, such as 1e+17, make the streaming loader '
+                   'reject the whole story', f.loc(b))
+    # the float parse is reachable whenever the integer parse failed
+    for i, p in enumerate(il):
+        w = g.path(g.succ[p], lambda b: b in g.returns, avoid=fl)
+        # a return that avoids the float parse must be the Ok(Int) of the success side: it assigns Number::Int
+        okw = True
+        if w is not None:
+            okw = any(s['k'] == 'assign' and s['rv']['k'] == 'agg' and s['rv'].get('var') == 'Int'
+                      for b in w for s in f.blocks[b]['st'])
+        chk.decide(RN, chk.key(RN, 'int-failure-falls-through', '#%d' % i), okw,
+                   'without an i32 the text goes on to the float parse',
+                   'after str::parse::<i32> read_number can return without the float parse and without an integer', f.loc(p))
+    chk.floor(RN, 'own error exits of read_number', n, 1)
